@@ -186,7 +186,9 @@ def run_cases(sub, chunk):
         err = ""
         try:
             wt.smart_add([os.path.join(t.root, concrete(fl, nested, a)) for a in sorted(c["args"])], recurse=c["rec"])
-        except Exception as e:      # noqa: the law says smart_add succeeds on these inputs
+        except BaseException as e:  # noqa: the law says smart_add succeeds on these inputs (Rust panics are BaseExceptions)
+            if isinstance(e, (KeyboardInterrupt, SystemExit)):
+                raise
             err = type(e).__name__
             if wt.is_locked():
                 sub.machinery("smart_add left the tree locked after %s" % err)
